@@ -14,6 +14,11 @@ inductive Panic where
   | slice                   -- slice bounds out of range
   | shift                   -- negative shift amount
   | explicit (msg : String) -- panic("...")
+  | makeslice               -- make([]byte, len, cap) with len < 0, cap < 0 or len > cap
+  | unmodelled (what : String)
+      -- NOT a Go panic: the model stops here because the Go code calls a function of another package
+      -- that the translator does not model (fmt.Appendf, fmt.Sprintf, strconv.FormatInt, …).  The
+      -- correspondence oracle skips lines on which the model ends this way.
   deriving Repr, DecidableEq, Inhabited
 
 abbrev GoM := Except Panic
@@ -28,6 +33,8 @@ inductive Err where
   | composeFormError
   | composeRangeError
   | errorsNew
+  | jsonUnsupportedValue    -- *encoding/json.UnsupportedValueError
+  | jsonUnmarshalType       -- *encoding/json.UnmarshalTypeError
   deriving Repr, DecidableEq, Inhabited
 
 /-! ## fixed-width integers -/
@@ -179,6 +186,34 @@ abbrev Bytes := Array UInt8
 @[inline] def bsliceFrom (b : Bytes) (lo : Int) : GoM Bytes := bslice b lo b.size
 
 def str (s : String) : Bytes := s.toUTF8.data
+
+/-! ## text layer: byte slices as values without spare capacity
+
+  A `[]byte` is modelled by its contents only (`cap b = len b`): `cap(b)` is translated to `Go.len b`,
+  `b[:k]` beyond `len b` throws `.slice`, and `append` always behaves as if it re-allocated.  Aliasing
+  between slices that share a backing array and stale bytes between `len` and `cap` are not modelled. -/
+
+/-- `a[lo:hi]` for a byte array `a` (read-only use: the result is a copy) -/
+@[inline] def vslice {n : Nat} (v : Vector UInt8 n) (lo hi : Int) : GoM Bytes :=
+  if 0 ≤ lo ∧ lo ≤ hi ∧ hi.toNat ≤ n then pure (v.toArray.extract lo.toNat hi.toNat) else throw .slice
+
+@[inline] def vsliceFrom {n : Nat} (v : Vector UInt8 n) (lo : Int) : GoM Bytes := vslice v lo n
+
+/-- `make([]byte, len, cap)` (`make([]byte, len)` is `makeBytes len len`): `len` zero bytes -/
+@[inline] def makeBytes (len cap : Int) : GoM Bytes :=
+  if 0 ≤ len ∧ len ≤ cap then pure (Array.replicate len.toNat (0 : UInt8)) else throw .makeslice
+
+/-- number of bytes `copy(dst, src)` transfers -/
+@[inline] def copyLen (dst src : Bytes) : Int64 := Int64.ofNat (min dst.size src.size)
+
+/-- `copy(v[lo:hi], src)` under value semantics: `dst` is the (already bounds-checked) value of
+    `v[lo:hi]`, of which only the length is used; the result is `v` with the bytes
+    `lo … lo + min (len dst) (len src) - 1` replaced by the first bytes of `src`.  `src` is a value, i.e. it
+    was read before anything is written (Go's `copy` has memmove semantics for overlapping slices).
+    `copy(v, src)` is `copyInto v 0 v src`. -/
+def copyInto (v : Bytes) (lo : Int) (dst src : Bytes) : Bytes :=
+  let n := min dst.size src.size
+  v.extract 0 lo.toNat ++ src.extract 0 n ++ v.extract (lo.toNat + n) v.size
 
 end Go
 
